@@ -14,6 +14,7 @@ M3  Acquire/Release events are validated by TLC against spec/DirLock/DirLockProp
 import json, os, sys, re, subprocess
 sys.path.insert(0, os.path.join(os.path.dirname(os.path.abspath(__file__)), "..", "lib"))
 from vlib import *
+from vpar import validate_traces_parallel
 
 GEN = """SPECIFICATION Spec
 CONSTANTS
@@ -132,7 +133,7 @@ def run(ctx):
     order = sorted(traces)
     tl = [project(traces[s]) for s in order]
     # ---------------------------------------------------------------- M3
-    rejected = ctx.validate_traces("DirLockPropTrace", "DirLockPropTrace.cfg", tl, timeout=1500)
+    rejected = validate_traces_parallel(ctx, "DirLockPropTrace", "DirLockPropTrace.cfg", tl, timeout=1500)
     nevents = sum(len(t) for t in tl)
     ctx.log("M3: %d traces / %d events validated, %d contradicting acquisitions" % (len(tl), nevents, len(rejected)))
     bysched = {}
